@@ -202,6 +202,33 @@ def _p_get_simplified_error():
     return [msgs], call, None
 
 
+def _p_immutable_getattr():
+    """what attribute access on an immutable owner hands out (Anything / untyped content: a defensive copy) can be
+    edited freely without the instance noticing"""
+    from typedpy import ImmutableStructure, Structure, Anything, Array, Map
+    from . import alias as S
+    imm = type("ApiImm", (ImmutableStructure,), {"opt": Anything(), "u": Array(), "m": Map(), "_required": []})
+    fld = type("ApiImmF", (Structure,), {"opt": Anything(immutable=True), "_required": []})
+    x = imm(opt=[1, [2], {"k": [3]}], u=[[1], {"z": [2]}], m={"k": [1, [2]]})
+    y = fld(opt=[1, [2], {"k": [3]}])
+
+    def call():
+        got = [x.opt, y.opt]
+        for v in got:
+            v.append("__leak__")
+            v[1].append("__leak__")
+            v[2]["k"].append("__leak__")
+        for e in list(x.u):
+            if isinstance(e, list):
+                e.append("__leak__")
+            elif isinstance(e, dict):
+                e["__leak__"] = 1
+        for e in list(x.m.values()):
+            e.append("__leak__")
+        return None
+    return [], call, ("unchanged", lambda: S.inst_fp(x) + S.inst_fp(y))
+
+
 PROBES = {
     "deserialize_single_field": _p_deserialize_single_field,
     "serialize_field": _p_serialize_field,
@@ -221,6 +248,7 @@ PROBES = {
     "get_simplified_error": _p_get_simplified_error,
     "standard_readable_error_for_typedpy_exception": _p_get_simplified_error,
     "declare:fields": _p_declare,
+    "ImmutableStructure:getattr": _p_immutable_getattr,
 }
 
 # entry points exercised by the operation streams of the alias suite (harness/suites/alias.py): name -> op
@@ -281,7 +309,7 @@ def run_api(case):
     res = {"api": name}
     before = json.dumps(AP.deep_canon(args), sort_keys=True, default=str)
     fp0 = None
-    if isinstance(expect, tuple) and expect[0] == "handout":
+    if isinstance(expect, tuple) and expect[0] in ("handout", "unchanged"):
         fp0 = expect[1]()
     try:
         out = call()
@@ -303,6 +331,9 @@ def run_api(case):
         if shared:
             res["problems"].append(["result-aliases-internal", f"the result of {name} contains {len(shared)} live "
                                     f"object(s) of the instance"])
+    if res["ok"] and isinstance(expect, tuple) and expect[0] == "unchanged":
+        if expect[1]() != fp0:
+            res["problems"].append(["result-aliases-internal", f"editing what {name} handed out changed the instance"])
     if res["ok"] and isinstance(expect, tuple) and expect[0] == "handout":
         # the caller empties / edits whatever container it was handed: the class must not notice
         for o in list(_mutables(out).values()):
